@@ -461,6 +461,19 @@ def check_c02(prop, tier, seed, devices):
                    [call("placed", E(base), E(2)), instr("ret", lab="behind"), seg(segname), dict(byte(1) if segname == "data" else data(1, E(9)), lab="after")]
             observe_labels(prog, ["behind", "after"])
             cases.append(Case(prog, tag="macro-layout"))
+    # every instruction occupies what the layout gave it: a relative jump whose target is out of reach is refused, it does not turn into
+    # a longer instruction that moves what follows away from its labels (with and without a device that has jmp/call)
+    for mn in ("rjmp", "rcall"):
+        for gap in (0x7ff, 0x800, 0x801, 0x900, 0x1400):
+            for dev in ("", "ATmega16", "ATmega2560", "ATmega8"):
+                head = [line("device", n=dev)] if dev else []
+                prog = head + [instr(mn, E(sym("far"))), instr("nop", lab="a1"), instr("nop", lab="a2"), data(2, E(sym("a1")), E(sym("a2")), lab="tab"),
+                               org(gap + 1), instr("ret", lab="far")]
+                observe_labels(prog, ["a1", "a2", "tab", "far"])
+                cases.append(Case(prog, tag="far-relative"))
+                prog = head + [instr("ret", lab="far"), org(gap + 1), instr(mn, E(sym("far"))), instr("nop", lab="b1"), data(2, E(sym("b1")), lab="tab")]
+                observe_labels(prog, ["b1", "tab"])
+                cases.append(Case(prog, tag="far-relative"))
     return run_cases(prop, tier, seed, cases, devices, keyf=default_key, mc=mc,
                      extra=[pipeline_extra(sample=2500 if tier == "quick" else 20000, fixtures=True, suite=True, seed=seed)],
                      rule="all sequences up to length 3 (quick) / 4 (thorough) over a 16-symbol layout alphabet x 3 device classes, "
@@ -933,6 +946,13 @@ def check_c10(prop, tier, seed, devices):
     hand += [[defr("tmp", 16), defr("tmp", 17), instr("ldi", E(sym("tmp")), E(1)), undef("tmp"), instr("nop")],
              [defr("tmp", 16), instr("ldi", E(sym("tmp")), E(1)), defr("tmp", 3), instr("mov", E(sym("tmp")), R(1)), instr("ldi", E(sym("tmp")), E(1))],
              [defr("tmp", 16), defr("tmp", 16), undef("tmp"), instr("inc", E(sym("tmp")))]]
+    # an alias is the register it is bound to, also for the rules of a device: the one-word lds/sts of the reduced core take r16..r31
+    for rn in (5, 15, 16, 20, 31):
+        for mn in ("lds", "sts"):
+            ops_ = [E(sym("tmp")), E(0x50)] if mn == "lds" else [E(0x50), E(sym("tmp"))]
+            hand.append([line("device", n="ATtiny20"), defr("tmp", rn), instr(mn, *ops_), instr("ret")])
+            hand.append([line("device", n="ATtiny10"), defr("tmp", 20), undef("tmp"), defr("tmp", rn), instr(mn, *ops_)])
+            hand.append([line("device", n="ATmega48"), defr("tmp", rn), instr(mn, *ops_), instr("ret")])
     # a variable assigned from the location counter, after placed items and after an origin
     hand += [[instr("nop"), instr("nop"), setv("mark", sym("pc")), instr("ldi", R(16), E(sym("mark"))), setv("mark", binop("+", sym("pc"), lit(1))), data(2, E(sym("mark")))],
              [data(2, E(10), E(20), E(30), lab="tab"), setv("tablen", binop("-", sym("pc"), sym("tab"))), instr("ldi", R(16), E(sym("tablen")))],
